@@ -210,9 +210,8 @@ fn param_choices() -> Vec<Option<BM25Params>> {
 }
 
 struct Ctx {
-    /// the current history has had a stale posting revived by a re-insert (known finding): from then
-    /// on the content of the index (incl. what a reload resurrects) is attributed to that finding
-    tainted: bool,
+    /// ids removed or purged so far in the current history (a resurrected document must be one of them)
+    removed: BTreeSet<u64>,
     failures: Vec<Value>,
     n_fail: usize,
     evaluations: usize,
@@ -221,9 +220,6 @@ struct Ctx {
 
 impl Ctx {
     fn fail(&mut self, class: &str, what: String, history: &[String], extra: Value) {
-        const CONTENT: [&str; 9] = ["retrieval-set", "counters", "crash-prefix", "insert-result", "remove-result",
-            "purge-result", "compaction", "load-error", "concurrent-compaction-loss"];
-        let class = if self.tainted && CONTENT.contains(&class) { "stale-reinsert-resurrection" } else { class };
         self.n_fail += 1;
         if self.failures.iter().filter(|f| f["class"] == class).count() < 3 {
             self.failures.push(json!({"class": class, "what": what, "history": history, "detail": extra}));
@@ -349,9 +345,49 @@ fn random_text(rng: &mut Rng) -> String {
 }
 
 /// One flush: record the write log, explore every crash prefix with the real loader.
+fn doc_ids(ix: &Index) -> BTreeSet<u64> {
+    (0..=3100u64).filter(|id| ix.get_doc_tokens(*id).is_some()).collect()
+}
+
+fn dump_json(ix: &Index, strict: bool) -> Value {
+    let (buckets, postings, _) = ix.verif_dump();
+    ctor("RDump", vec![json!(strict),
+        Value::Array(buckets.iter().map(|(b, d, t, ids)| tup(vec![json!(b), json!(d), json!(t), json!(ids)])).collect()),
+        Value::Array(postings.iter().map(|(t, b, _)| tup(vec![json!(t), json!(b)])).collect())])
+}
+
+/// "The live index answers = the answers after loading what the completed flush left behind."
+/// Must hold for EVERY history.  The one documented exception is identified narrowly: documents
+/// that were removed earlier come back (class stale-reinsert-resurrection) while every other
+/// answer is unchanged; a live document that is missing after the reload is never excused.
+fn compare_reload(cx: &mut Ctx, live: &Index, loaded: Option<&Index>, when: &str, history: &[String]) {
+    let lv = battery(Some(live));
+    let ld = battery(loaded);
+    if lv == ld { return; }
+    let live_ids = doc_ids(live);
+    let loaded_ids = loaded.map(doc_ids).unwrap_or_default();
+    let lost: Vec<u64> = live_ids.difference(&loaded_ids).copied().collect();
+    let back: BTreeSet<u64> = loaded_ids.difference(&live_ids).copied().collect();
+    let diff: Vec<_> = lv.iter().zip(ld.iter()).filter(|(a, b)| a != b).take(3)
+        .map(|(a, b)| json!({"query": a.0, "live": a.1.iter().map(|h| h.0).collect::<Vec<_>>(), "loaded": b.1.iter().map(|h| h.0).collect::<Vec<_>>()})).collect();
+    let detail = json!({"when": when, "live_documents": live_ids, "loaded_documents": loaded_ids, "lost": lost, "came_back": back, "diff": diff});
+    if !lost.is_empty() {
+        cx.fail("reload-loses-document", format!("{when}: indexed document(s) {lost:?} are missing after flush + load"), history, detail);
+    } else if !back.is_empty() && back.is_subset(&cx.removed) && lv.len() == ld.len() && lv.iter().zip(ld.iter()).all(|(a, b)| {
+        a.0 == "#stats" || a.1.iter().map(|h| h.0).collect::<BTreeSet<_>>()
+            == b.1.iter().map(|h| h.0).filter(|i| !back.contains(i)).collect::<BTreeSet<_>>()
+    }) {
+        cx.fail("stale-reinsert-resurrection", format!("{when}: removed document(s) {back:?} come back after flush + load (all other answers unchanged)"), history, detail);
+    } else {
+        cx.fail("reload-divergence", format!("{when}: the loaded index does not answer like the live one"), history, detail);
+    }
+}
+
+/// One flush: record the write log, explore every crash prefix with the real loader.
+/// Returns the bucket ids it rewrote (None when the flush itself failed).
 fn flush_explore(
     cx: &mut Ctx, ix: &Index, store: &mut MemStore, now: u64, history: &[String], out: &mut impl Write,
-) -> bool {
+) -> Option<Vec<u32>> {
     let log: RefCell<Vec<W>> = RefCell::new(Vec::new());
     let r = futures::executor::block_on(ix.flush_with(
         now,
@@ -360,16 +396,24 @@ fn flush_explore(
     ));
     let outcome = match r {
         Ok(o) => o,
-        Err(e) => { cx.fail("flush-error", format!("flush failed: {e}"), history, json!(null)); return false; }
+        Err(e) => { cx.fail("flush-error", format!("flush failed: {e}"), history, json!(null)); return None; }
     };
     let log = log.into_inner();
+    let written: Vec<u32> = log.iter().filter_map(|w| match w { W::Bucket(o, _) => Some(o.bucket_id), _ => None }).collect();
     if !outcome.saved {
         if !log.is_empty() { cx.fail("flush-atomicity", "flush reported saved=false after writing".into(), history, json!(null)); }
         cx.bump("flushes_noop");
-        return true;
+        // nothing to write: what is on disk must already answer like the live index
+        if store.meta.is_some() {
+            match load(store) {
+                Ok(i) => compare_reload(cx, ix, i.as_ref(), "no-op flush", history),
+                Err(e) => cx.fail("load-error", e, history, json!("committed store")),
+            }
+        }
+        return Some(written);
     }
     cx.bump("flushes");
-    if log.iter().filter(|w| matches!(w, W::Bucket(..))).count() >= 2 { cx.bump("flushes_with_2plus_dirty_buckets"); }
+    if written.len() >= 2 { cx.bump("flushes_with_2plus_dirty_buckets"); }
     // monitor case: committed manifest, existing objects, the write log, the obsolete list
     let committed: BTreeMap<u32, u64> = store.meta.as_deref().map(manifest_of).unwrap_or_default();
     let mf = |m: &BTreeMap<u32, u64>| Value::Array(m.iter().map(|(b, g)| tup(vec![json!(b), json!(g)])).collect());
@@ -381,24 +425,27 @@ fn flush_explore(
     let obsolete = Value::Array(outcome.obsolete.iter().map(|o| tup(vec![json!(o.bucket_id), json!(o.generation)])).collect());
     writeln!(out, "{}", json!({"kind": "flush", "case": tup(vec![mf(&committed), existing, Value::Array(steps), obsolete])})).unwrap();
 
-    // direct oracle: every crash prefix, loaded by the real loader, answers like the old or the new snapshot
-    let old_view = match load(store) { Ok(ix0) => battery(ix0.as_ref()), Err(e) => { cx.fail("load-error", e, history, json!("committed store")); return false; } };
-    let new_view = battery(Some(ix));
+    // direct oracle: every crash prefix, loaded by the real loader, answers like the old snapshot;
+    // the completed flush (and every prefix of the deletion of obsolete objects) like the live index
+    let old_view = match load(store) { Ok(ix0) => battery(ix0.as_ref()), Err(e) => { cx.fail("load-error", e, history, json!("committed store")); return None; } };
     let mut st = store.clone();
     for k in 0..=log.len() {
         if k > 0 { apply_write(&mut st, &log[k - 1]); }
         cx.evaluations += 1;
-        let view = match load(&st) {
-            Ok(i) => battery(i.as_ref()),
+        let loaded = match load(&st) {
+            Ok(i) => i,
             Err(e) => { cx.fail("crash-prefix", format!("crash after {k} of {} writes: {e}", log.len()), history, json!({"k": k})); continue; }
         };
-        let want = if k < log.len() { &old_view } else { &new_view };
-        if &view != want {
-            let which = if k < log.len() { "the last committed snapshot" } else { "the flushed state" };
-            let diff: Vec<_> = view.iter().zip(want.iter()).filter(|(a, b)| a != b).take(2)
-                .map(|(a, b)| json!({"query": a.0, "loaded": a.1, "expected": b.1})).collect();
-            cx.fail("crash-prefix", format!("loading after {k} of {} flush writes does not answer like {which}", log.len()), history,
-                json!({"k": k, "writes": log.len(), "diff": diff}));
+        if k < log.len() {
+            let view = battery(loaded.as_ref());
+            if view != old_view {
+                let diff: Vec<_> = view.iter().zip(old_view.iter()).filter(|(a, b)| a != b).take(2)
+                    .map(|(a, b)| json!({"query": a.0, "loaded": a.1, "expected": b.1})).collect();
+                cx.fail("crash-prefix", format!("loading after {k} of {} flush writes does not answer like the last committed snapshot", log.len()), history,
+                    json!({"k": k, "writes": log.len(), "diff": diff}));
+            }
+        } else {
+            compare_reload(cx, ix, loaded.as_ref(), "completed flush", history);
         }
     }
     // after the commit the caller deletes the obsolete objects, one by one, possibly interrupted
@@ -406,14 +453,12 @@ fn flush_explore(
         st.buckets.remove(o);
         cx.evaluations += 1;
         match load(&st) {
-            Ok(i) => if battery(i.as_ref()) != new_view {
-                cx.fail("crash-prefix", format!("deleting obsolete object {o:?} changes the answers"), history, json!(null));
-            },
+            Ok(i) => compare_reload(cx, ix, i.as_ref(), &format!("after deleting obsolete object {o:?}"), history),
             Err(e) => cx.fail("crash-prefix", format!("after deleting obsolete {o:?}: {e}"), history, json!(null)),
         }
     }
     *store = st;
-    true
+    Some(written)
 }
 
 
@@ -424,7 +469,7 @@ fn flush_explore(
 fn stress(cx: &mut Ctx, rng: &mut Rng, rounds: usize) {
     use std::sync::Arc;
     use std::sync::atomic::{AtomicBool, Ordering};
-    cx.tainted = false;
+    cx.removed.clear();
     for round in 0..rounds {
         let overload = *rng.pick(&[48usize, 64, 128]);
         let ix = Arc::new(Index::new("stress".to_string(), Ws, Some(BM25Config { bm25: BM25Params::default(), bucket_overload_size: overload })));
@@ -476,7 +521,7 @@ fn stress(cx: &mut Ctx, rng: &mut Rng, rounds: usize) {
         check(cx, &ix, "in memory");
         let mut store = MemStore::default();
         let mut sink = std::io::sink();
-        if flush_explore(cx, &ix, &mut store, 1, &history, &mut sink) {
+        if flush_explore(cx, &ix, &mut store, 1, &history, &mut sink).is_some() {
             match load(&store) {
                 Ok(Some(nix)) => check(cx, &nix, "after flush + load"),
                 Ok(None) => {}
@@ -497,7 +542,7 @@ pub fn replay(args: &[String]) {
     let mut ix = Index::new("replay".to_string(), Ws, None);
     let mut naive = Naive::default();
     let mut store = MemStore::default();
-    let mut cx = Ctx { tainted: false, failures: vec![], n_fail: 0, evaluations: 0, dist: BTreeMap::new() };
+    let mut cx = Ctx { removed: BTreeSet::new(), failures: vec![], n_fail: 0, evaluations: 0, dist: BTreeMap::new() };
     let mut sink = std::io::sink();
     let unq = |s: &str| -> String { serde_json::from_str::<String>(s).unwrap_or_else(|_| s.trim_matches('"').to_string()) };
     for (i, line) in hist.iter().enumerate() {
@@ -541,131 +586,221 @@ pub fn replay(args: &[String]) {
     for f in cx.failures { println!("{}", f); }
 }
 
+#[derive(Clone, Debug)]
+enum Op {
+    Ins(u64, String),
+    Rem(u64, String),
+    Purge(BTreeSet<u64>),
+    Compact,
+    Flush,
+    Reload,
+    Search(String),
+    Query(Q),
+}
+
+/// The insert / remove-with-wrong-text / re-insert family on one id, with a flush (or flush + load)
+/// between every pair of operations.
+fn wrong_text_family(r: &mut Rng, id_space: u64) -> Vec<Op> {
+    let a = r.range(1, id_space as i64) as u64;
+    let other = 1 + (a % id_space);
+    let n = r.range(1, 3) as usize;
+    let t_words: Vec<&str> = (0..n).map(|_| *r.pick(&VOCAB[..6])).collect();
+    let t = t_words.join(" ");
+    let wrong: Vec<&str> = VOCAB.iter().copied().filter(|w| !t_words.contains(w)).collect();
+    let mut ops = vec![Op::Ins(a, t.clone())];
+    for _ in 0..r.range(3, 8) {
+        ops.push(if r.chance(2, 3) { Op::Flush } else { Op::Reload });
+        ops.push(match r.below(10) {
+            0..=3 => Op::Ins(a, t.clone()),
+            4..=6 => { let k = r.range(1, 2); Op::Rem(a, (0..k).map(|_| *r.pick(&wrong)).collect::<Vec<_>>().join(" ")) }
+            7 => Op::Rem(a, t.clone()),
+            8 => Op::Ins(a, random_text(r)),
+            _ => Op::Ins(other, if r.chance(1, 2) { t.clone() } else { random_text(r) }),
+        });
+        if r.chance(1, 4) { ops.push(Op::Search(t_words[0].to_string())); }
+    }
+    ops.push(if r.chance(1, 2) { Op::Flush } else { Op::Reload });
+    ops
+}
+
+fn random_op(r: &mut Rng, id_space: u64, unclean: bool, naive: &Naive, last_text: &BTreeMap<u64, String>) -> Op {
+    let c = r.below(100);
+    if c < 34 {
+        let id = r.range(1, id_space as i64) as u64;
+        // a re-insert often reuses the text the id had before (same (id, freq) pairs as stale entries)
+        match last_text.get(&id) {
+            Some(t) if unclean && r.chance(1, 2) => Op::Ins(id, t.clone()),
+            _ => Op::Ins(id, random_text(r)),
+        }
+    } else if c < 52 {
+        let id = r.range(1, id_space as i64 + 1) as u64;
+        match (naive.texts.get(&id), unclean && r.chance(1, 2)) {
+            (Some(t), false) => Op::Rem(id, t.clone()),
+            _ => Op::Rem(id, random_text(r)),
+        }
+    } else if c < 58 {
+        Op::Purge((0..r.below(3)).map(|_| r.range(1, id_space as i64 + 1) as u64).collect())
+    } else if c < 62 {
+        Op::Compact
+    } else if c < 67 {
+        Op::Flush
+    } else if c < 73 {
+        Op::Reload
+    } else if c < 80 {
+        let n = r.range(1, 3);
+        Op::Search((0..n).map(|_| if r.chance(1, 10) { "x" } else { *r.pick(&VOCAB) }).collect::<Vec<_>>().join(" "))
+    } else {
+        Op::Query(gen_query(r, 3))
+    }
+}
+
 pub fn main(args: &[String]) {
     let mut rng = Rng::from_env();
     let n_hist: usize = arg_value(args, "--histories").and_then(|s| s.parse().ok()).unwrap_or(300);
     let max_ops: usize = arg_value(args, "--max-ops").and_then(|s| s.parse().ok()).unwrap_or(36);
     let out_path = arg_value(args, "--out").unwrap_or_else(|| "/dev/stdout".into());
     let mut out = std::io::BufWriter::new(std::fs::File::create(&out_path).expect("out"));
-    let mut cx = Ctx { tainted: false, failures: vec![], n_fail: 0, evaluations: 0, dist: BTreeMap::new() };
+    let mut cx = Ctx { removed: BTreeSet::new(), failures: vec![], n_fail: 0, evaluations: 0, dist: BTreeMap::new() };
 
     for h in 0..n_hist {
         let mut r = rng.fork();
-        // clean histories remove with the original text only; the others also pass non-original text
-        let unclean = h % 3 == 2;
+        // clean histories remove with the original text only; the others also pass non-original text;
+        // every fourth history starts with the flush-dense wrong-text family
+        let dense = h % 4 == 1;
+        let unclean = dense || h % 3 == 2;
         let overload = *r.pick(&[48usize, 64, 96, 200, 512 * 1024]);
         let mut ix = Index::new("c11".to_string(), Ws, Some(BM25Config { bm25: BM25Params::default(), bucket_overload_size: overload }));
         let mut naive = Naive::default();
         let mut store = MemStore::default();
         let mut history: Vec<String> = vec![format!("new(bucket_overload_size={overload})")];
         let mut rops: Vec<Value> = Vec::new();
-        let n_ops = r.range(6, max_ops as i64) as usize;
         let id_space = *r.pick(&[3u64, 5, 8]);
+        let mut script: std::collections::VecDeque<Op> = if dense { wrong_text_family(&mut r, id_space).into() } else { Default::default() };
+        let n_ops = script.len() + r.range(6, max_ops as i64) as usize / if dense { 2 } else { 1 };
+        let mut last_text: BTreeMap<u64, String> = BTreeMap::new();
         let mut nontrivial = false;
-        cx.tainted = false;
-        let mut model_frozen = false;
-        let mut frozen_len = 0usize;
+        let mut was_ghost = false;
+        cx.removed.clear();
         for step in 0..n_ops {
             let now = step as u64 + 1;
-            let c = r.below(100);
-            if c < 34 {
-                let id = r.range(1, id_space as i64) as u64;
-                let text = random_text(&mut r);
-                history.push(format!("insert({id}, {text:?})"));
-                let res = ix.insert(id, &text, now);
-                let code = match &res { Ok(()) => 0, Err(BM25Error::AlreadyExists { .. }) => 1, Err(BM25Error::TokenizeFailed { .. }) => 2, Err(_) => 3 };
-                let want = if words(&text).is_empty() { 2 } else if naive.texts.contains_key(&id) { 1 } else { 0 };
-                if code != want { cx.fail("insert-result", format!("insert returned code {code}, expected {want}"), &history, json!(null)); }
-                if code == 0 { naive.insert(id, &text); }
-                cx.bump(["insert_ok", "insert_exists", "insert_tokenize_failed", "insert_other"][code]);
-                rops.push(ctor("RInsert", vec![json!(id), json!(text), json!(code)]));
-            } else if c < 52 {
-                let id = r.range(1, id_space as i64 + 1) as u64;
-                let orig = naive.texts.get(&id).cloned();
-                let text = match (&orig, unclean && r.chance(1, 2)) {
-                    (Some(t), false) => t.clone(),
-                    _ => random_text(&mut r),
-                };
-                let covering = orig.as_ref().map(|t| words(t).iter().all(|w| words(&text).contains(w))).unwrap_or(true);
-                history.push(format!("remove({id}, {text:?})"));
-                let got = ix.remove(id, &text, now);
-                if got != orig.is_some() { cx.fail("remove-result", format!("remove returned {got}"), &history, json!(null)); }
-                naive.remove(id, &text);
-                cx.bump(if orig.is_none() { "remove_missing" } else if covering { "remove_original" } else { "remove_non_original" });
-                rops.push(ctor("RRemove", vec![json!(id), json!(text), json!(got)]));
-            } else if c < 58 {
-                let ids: BTreeSet<u64> = (0..r.below(3)).map(|_| r.range(1, id_space as i64 + 1) as u64).collect();
-                history.push(format!("purge_ids({ids:?})"));
-                let want = ids.iter().filter(|i| naive.texts.contains_key(i)).count();
-                let got = ix.purge_ids(&ids, now);
-                if got != want { cx.fail("purge-result", format!("purge_ids returned {got}, expected {want}"), &history, json!(null)); }
-                naive.purge(&ids);
-                cx.bump("purge");
-                rops.push(ctor("RPurge", vec![Value::Array(ids.iter().map(|i| json!(i)).collect()), json!(got)]));
-            } else if c < 62 {
-                history.push("compact_buckets()".into());
-                let before = battery(Some(&ix));
-                let (old_n, new_n) = ix.compact_buckets();
-                if battery(Some(&ix)) != before { cx.fail("compaction", "compaction changes the answers".into(), &history, json!(null)); }
-                if old_n > 1 { cx.bump("compactions_multi_bucket"); }
-                let _ = new_n;
-                rops.push(ctor("RCompact", vec![]));
-            } else if c < 66 {
-                history.push("flush()".into());
-                flush_explore(&mut cx, &ix, &mut store, now, &history, &mut out);
-                rops.push(ctor("RCompact", vec![]));
-            } else if c < 72 {
-                history.push("flush(); load_all()".into());
-                if flush_explore(&mut cx, &ix, &mut store, now, &history, &mut out) {
-                    match load(&store) {
-                        Ok(Some(nix)) => { ix = nix; naive.reload(); rops.push(ctor("RReload", vec![])); cx.bump("reloads"); }
-                        Ok(None) => { history.pop(); }
-                        Err(e) => cx.fail("load-error", e, &history, json!(null)),
+            let op = match script.pop_front() { Some(op) => op, None => random_op(&mut r, id_space, unclean, &naive, &last_text) };
+            let mut mutated = true;
+            match op {
+                Op::Ins(id, text) => {
+                    history.push(format!("insert({id}, {text:?})"));
+                    let before: BTreeSet<String> = ix.verif_dump().1.into_iter().map(|p| p.0).collect();
+                    let res = ix.insert(id, &text, now);
+                    let code = match &res { Ok(()) => 0, Err(BM25Error::AlreadyExists { .. }) => 1, Err(BM25Error::TokenizeFailed { .. }) => 2, Err(_) => 3 };
+                    let want = if words(&text).is_empty() { 2 } else if naive.texts.contains_key(&id) { 1 } else { 0 };
+                    if code != want { cx.fail("insert-result", format!("insert returned code {code}, expected {want}"), &history, json!(null)); }
+                    if code == 0 { naive.insert(id, &text); last_text.insert(id, text.clone()); }
+                    cx.bump(["insert_ok", "insert_exists", "insert_tokenize_failed", "insert_other"][code]);
+                    let place: Vec<Value> = ix.verif_dump().1.iter().filter(|p| !before.contains(&p.0)).map(|p| tup(vec![json!(p.0), json!(p.1)])).collect();
+                    rops.push(ctor("RInsert", vec![json!(id), json!(text), json!(code), Value::Array(place)]));
+                }
+                Op::Rem(id, text) => {
+                    let orig = naive.texts.get(&id).cloned();
+                    let covering = orig.as_ref().map(|t| words(t).iter().all(|w| words(&text).contains(w))).unwrap_or(true);
+                    history.push(format!("remove({id}, {text:?})"));
+                    let got = ix.remove(id, &text, now);
+                    if got != orig.is_some() { cx.fail("remove-result", format!("remove returned {got}"), &history, json!(null)); }
+                    naive.remove(id, &text);
+                    cx.removed.insert(id);
+                    cx.bump(if orig.is_none() { "remove_missing" } else if covering { "remove_original" } else { "remove_non_original" });
+                    rops.push(ctor("RRemove", vec![json!(id), json!(text), json!(got)]));
+                }
+                Op::Purge(ids) => {
+                    history.push(format!("purge_ids({ids:?})"));
+                    let want = ids.iter().filter(|i| naive.texts.contains_key(i)).count();
+                    let got = ix.purge_ids(&ids, now);
+                    if got != want { cx.fail("purge-result", format!("purge_ids returned {got}, expected {want}"), &history, json!(null)); }
+                    naive.purge(&ids);
+                    cx.removed.extend(ids.iter().copied());
+                    cx.bump("purge");
+                    rops.push(ctor("RPurge", vec![Value::Array(ids.iter().map(|i| json!(i)).collect()), json!(got)]));
+                }
+                Op::Compact => {
+                    history.push("compact_buckets()".into());
+                    let before = battery(Some(&ix));
+                    let (old_n, _new_n) = ix.compact_buckets();
+                    if battery(Some(&ix)) != before { cx.fail("compaction", "compaction changes the answers".into(), &history, json!(null)); }
+                    if old_n > 1 { cx.bump("compactions_multi_bucket"); }
+                    let place: Vec<Value> = ix.verif_dump().1.iter().map(|p| tup(vec![json!(p.0), json!(p.1)])).collect();
+                    rops.push(ctor("RCompact", vec![Value::Array(place)]));
+                }
+                Op::Flush => {
+                    history.push("flush()".into());
+                    match flush_explore(&mut cx, &ix, &mut store, now, &history, &mut out) {
+                        Some(written) => rops.push(ctor("RFlush", vec![json!(written)])),
+                        None => break,
                     }
                 }
-            } else if c < 80 {
-                let text = { let n = r.range(1, 3); (0..n).map(|_| if r.chance(1, 10) { "x" } else { *r.pick(&VOCAB) }).collect::<Vec<_>>().join(" ") };
-                history.push(format!("search({text:?})"));
-                let strict = naive.term_strict(&text);
-                let stale = naive.term_stale(&text);
-                let (all, tops) = observe_query(&mut cx, &ix, &mut r, &text, false, &strict, &stale, &history);
-                if all.len() >= 2 { nontrivial = true; }
-                rops.push(ctor("RSearch", vec![json!(text), hits_json(&all),
-                    Value::Array(tops.iter().map(|(k, ids)| tup(vec![json!(k), json!(ids)])).collect())]));
-                history.pop();
-            } else {
-                let q = gen_query(&mut r, 3);
-                let mut text = render(&q);
-                if text.starts_with('(') && text.ends_with(')') && r.chance(1, 2) && matches!(q, Q::And(_) | Q::Or(_)) {
-                    text = text[1..text.len() - 1].to_string();
+                Op::Reload => {
+                    history.push("flush(); load_all()".into());
+                    let Some(written) = flush_explore(&mut cx, &ix, &mut store, now, &history, &mut out) else { break };
+                    match load(&store) {
+                        Ok(Some(nix)) => {
+                            let same_docs = doc_ids(&nix) == naive.universe();
+                            ix = nix;
+                            naive.reload();
+                            rops.push(ctor("RReload", vec![json!(written)]));
+                            cx.bump("reloads");
+                            if !same_docs {
+                                // already reported by compare_reload (resurrection or loss): the history ends here,
+                                // the bucket-level model still has to reproduce what was loaded
+                                rops.push(dump_json(&ix, false));
+                                cx.bump("histories_ended_by_reload_changing_the_documents");
+                                break;
+                            }
+                        }
+                        Ok(None) => { history.pop(); rops.push(ctor("RFlush", vec![json!(written)])); }
+                        Err(e) => { cx.fail("load-error", e, &history, json!(null)); break; }
+                    }
                 }
-                let parsed = QueryType::parse(&text);
-                history.push(format!("search_advanced({text:?})"));
-                let strict = naive.eval(&q, false);
-                let stale = naive.eval(&q, true);
-                let (all, tops) = observe_query(&mut cx, &ix, &mut r, &text, true, &strict, &stale, &history);
-                if all.len() >= 2 { nontrivial = true; }
-                cx.bump(match q { Q::Term(_) => "q_term", Q::And(_) => "q_and", Q::Or(_) => "q_or", Q::Not(_) => "q_not" });
-                rops.push(ctor("RQuery", vec![ast_json(&parsed), hits_json(&all),
-                    Value::Array(tops.iter().map(|(k, ids)| tup(vec![json!(k), json!(ids)])).collect())]));
-                history.pop();
+                Op::Search(text) => {
+                    mutated = false;
+                    history.push(format!("search({text:?})"));
+                    let strict = naive.term_strict(&text);
+                    let stale = naive.term_stale(&text);
+                    let (all, tops) = observe_query(&mut cx, &ix, &mut r, &text, false, &strict, &stale, &history);
+                    if all.len() >= 2 { nontrivial = true; }
+                    rops.push(ctor("RSearch", vec![json!(text), hits_json(&all),
+                        Value::Array(tops.iter().map(|(k, ids)| tup(vec![json!(k), json!(ids)])).collect())]));
+                    history.pop();
+                }
+                Op::Query(q) => {
+                    mutated = false;
+                    let mut text = render(&q);
+                    if text.starts_with('(') && text.ends_with(')') && r.chance(1, 2) && matches!(q, Q::And(_) | Q::Or(_)) {
+                        text = text[1..text.len() - 1].to_string();
+                    }
+                    let parsed = QueryType::parse(&text);
+                    history.push(format!("search_advanced({text:?})"));
+                    let strict = naive.eval(&q, false);
+                    let stale = naive.eval(&q, true);
+                    let (all, tops) = observe_query(&mut cx, &ix, &mut r, &text, true, &strict, &stale, &history);
+                    if all.len() >= 2 { nontrivial = true; }
+                    cx.bump(match q { Q::Term(_) => "q_term", Q::And(_) => "q_and", Q::Or(_) => "q_or", Q::Not(_) => "q_not" });
+                    rops.push(ctor("RQuery", vec![ast_json(&parsed), hits_json(&all),
+                        Value::Array(tops.iter().map(|(k, ids)| tup(vec![json!(k), json!(ids)])).collect())]));
+                    history.pop();
+                }
+            }
+            if mutated {
+                // bucket bookkeeping (dirty flags, listed tokens, doc_ids, token owners) vs the bucket-level model;
+                // bucket-level model vs whole-index model
+                rops.push(dump_json(&ix, true));
             }
             if r.chance(1, 3) || step + 1 == n_ops {
                 rops.push(stats_op(&mut cx, &ix, &naive, &history));
             }
-            if !cx.tainted && naive.has_ghost() {
-                cx.tainted = true;
-                cx.bump("histories_tainted_by_revived_stale_posting");
+            if !was_ghost && naive.has_ghost() {
+                was_ghost = true;
+                cx.bump("histories_with_a_revived_stale_posting");
             }
-            // the whole-index model of flush+load is claimed only while no stale posting has been revived
-            if cx.tainted && !model_frozen && history.last().map(|l| l.contains("load_all")).unwrap_or(false) {
-                model_frozen = true;
-            }
-            if !model_frozen { frozen_len = rops.len(); }
         }
-        rops.truncate(frozen_len);
         if naive.has_ghost() { cx.bump("histories_ending_with_ghost_entries"); }
-        cx.bump(if unclean { "histories_unclean" } else { "histories_clean" });
+        cx.bump(if dense { "histories_dense_wrong_text_family" } else if unclean { "histories_unclean" } else { "histories_clean" });
         writeln!(out, "{}", json!({"kind": "model", "case": Value::Array(rops), "nontrivial": nontrivial, "history": history})).unwrap();
     }
     let n_stress: usize = arg_value(args, "--stress").and_then(|s| s.parse().ok()).unwrap_or(0);
